@@ -180,6 +180,8 @@ def run_rt(spec, acc):
                 else:
                     acc.count('rt_programs_unfinished')
                 acc.count('rt_resumptions_checked', r.n_res)
+                for (what, ck), n in r.kinds.items():
+                    acc.count(f'rt_res_{what}_{ck}', n)
                 acc.maxi('max_rt_lateness_s', r.max_late)
                 for f in feats:
                     acc.count('feature_' + f)
@@ -223,6 +225,8 @@ def run_nrt(spec, acc):
         acc.case(h64(json.dumps(prog, sort_keys=True)), nontrivial=nt)
         acc.count('nrt_programs')
         acc.count('nrt_resumptions_checked', r.n_res)
+        for (what, ck), n in r.kinds.items():
+            acc.count(f'nrt_res_{what}_{ck}', n)
         for f in feats:
             acc.count('feature_' + f)
         if not r.done:
